@@ -66,9 +66,16 @@ def gen_history(rng, tier):
             ["create", "view", "create", "insert", "reopen", "insert"],
             ["create", "insert", "deleteall", "sleep", "reopen", "reopen", "insert", "reopen"],
             ["create", "create", "drop", "insert", "create", "insert", "reopen", "drop", "reopen", "create", "insert", "reopen"],
+            # row-set ids are global, directories are <table>_<rowset>: table 1 / row-set 0 dropped while table 0 / row-set 1 lives (and 2_0 / 0_2)
+            ["create", "create", ("insert", 1), ("insert", 0), ("drop", 1), "sleep", "reopen", "insert", "reopen"],
+            ["create", "create", "create", ("insert", 2), ("insert", 1), ("insert", 0), ("drop", 2), "sleep", "reopen", ("drop", 1), "sleep", "reopen"],
         ])
+    order = []
     for forced in plan:
         r = rng.random()
+        target = None
+        if isinstance(forced, tuple):
+            forced, target = forced[0], (order[forced[1]] if forced[1] < len(order) and order[forced[1]] in live else None)
         kind = forced or ("create" if r < 0.18 else "drop" if r < 0.26 else "insert" if r < 0.52 else "delete" if r < 0.66 else
                           "view" if r < 0.70 else "func" if r < 0.73 else "sleep" if r < 0.82 else "reopen")
         if kind == "create":
@@ -78,19 +85,20 @@ def gen_history(rng, tier):
             name = rng.choice(free)
             si = rng.randrange(len(SCHEMAS))
             live[name] = [si, 0]
+            order.append(name)
             steps.append({"sql": f"create table {name}({SCHEMAS[si][0]})"})
             script.append(("create", name, si))
         elif kind == "drop":
             if not live:
                 continue
-            name = rng.choice(sorted(live))
+            name = target or rng.choice(sorted(live))
             del live[name]
             steps.append({"sql": f"drop table {name}"})
             script.append(("drop", name))
         elif kind == "insert":
             if not live:
                 continue
-            name = rng.choice(sorted(live))
+            name = target or rng.choice(sorted(live))
             si = live[name][0]
             rows = []
             for _ in range(rng.choice([1, 2, 6, 20, 45])):
